@@ -326,9 +326,19 @@ func (m *MTProto) readMsg() error {
 	return nil
 }
 
-func (m *MTProto) processResponse(msg messages.Common) error {
+func (m *MTProto) processResponse(msg messages.Common) (err error) {
+	// content-related message must be acknowledged whether it was useful for us or not (result of request
+	// which is already answered, object which can't be decoded...), otherwise server sends it again and again
+	defer func() {
+		if (msg.GetSeqNo() & 1) != 0 {
+			_, ackErr := m.MakeRequest(&objects.MsgsAck{MsgIDs: []int64{int64(msg.GetMsgID())}})
+			if ackErr != nil && err == nil {
+				err = errors.Wrap(ackErr, "sending ack")
+			}
+		}
+	}()
+
 	var data tl.Object
-	var err error
 	// hints for decoder are stored by id of the REQUEST, so we need to know which request this message answers
 	// to, before decoding it: rpc_result is crc, req_msg_id:long and then result itself
 	if et, ok := m.expectedTypes.Get(rpcResultRequestID(msg.GetMsg())); ok && len(et) > 0 {
@@ -412,13 +422,6 @@ messageTypeSwitching:
 		}
 		if !processed {
 			m.warnError(errors.New("got nonsystem message from server: " + reflect.TypeOf(message).String()))
-		}
-	}
-
-	if (msg.GetSeqNo() & 1) != 0 {
-		_, err := m.MakeRequest(&objects.MsgsAck{MsgIDs: []int64{int64(msg.GetMsgID())}})
-		if err != nil {
-			return errors.Wrap(err, "sending ack")
 		}
 	}
 
